@@ -284,10 +284,12 @@ func build(t *testing.T, k int, o map[string]any) built {
 
 		return built{sd, sig, js(sd)}
 	case "randao":
-		r := testutil.RandomCoreSignedRandao()
-		r.Signature = sig
+		sd, err := testutil.RandomCoreSignedRandao().SetSignature(core.SigFromETH2(sig))
+		if err != nil {
+			t.Fatal(err)
+		}
 
-		return built{r, sig, js(r)}
+		return built{sd, sig, js(sd)}
 	default:
 		panic("unknown kind " + drv.Str(o["kind"]))
 	}
@@ -598,4 +600,5 @@ func runOne(t *testing.T, tr *drv.Tracer, reg *prometheus.Registry, sid, rep int
 		ev["err"], ev["text"] = "own", rerr.Error()
 	}
 	tr.Emit(ev)
+	tr.Emit(drv.Step{"ev": "End"})
 }
